@@ -1,8 +1,19 @@
 """C19 — SimpleClient / AsyncSimpleClient: events are received once each, in arrival order (K9).
 
 Real classes under a deterministic scheduler (harness/simple_world.py); every schedule is also run
-through the Lean model (`siodriver simple`) and compared token by token; the property itself is
-evaluated by `WorldBase._judge/judge_blocked` on what the implementation observably did.
+through the Lean model (`sd_simple`, Sio/Model/Simple.lean) and compared token by token; the property
+itself is evaluated by `WorldBase._judge/judge_blocked` on what the implementation observably did.
+
+Schedules: (1) every maximal interleaving of the bounded configurations of `families` (stateless
+depth-first search: each schedule executed once on a fresh real object, sub-trees farmed out to a
+process pool), (2) random token strings beyond those bounds, including tokens that cannot move
+anything, (3) the witnesses of the two recorded findings.
+
+Recorded findings (KNOWN_FINDINGS.txt, signatures `KNOWN_SIGS`): inside their region the model follows
+the code as it is, the oracle reports them through ctx.known(), and the correspondence is not
+enforced for schedules that enter the region (so a later repair silences the line, nothing else).
+A schedule on which a thread never parks nor finishes (busy loop) is cut after RUNAWAY tokens /
+by the watchdog of the asyncio world and reported; the first one stops the enumeration (ABORT).
 """
 import json
 import multiprocessing
